@@ -40,7 +40,7 @@ MANIFEST = {
 def run(run):
     run.explanation = EXPLANATION
     run.assumptions += ["os.listdir: arbitrary order, no duplicates", "os.rename is atomic within one filesystem"]
-    for r, n in (("C18.R1", 1), ("C18.R2", 1), ("C18.R3", 3), ("C18.R4", 1), ("C18.R5", 2), ("C18.R6", 1)):
+    for r, n in (("C18.R1", 1), ("C18.R2", 1), ("C18.R3", 3), ("C18.R4", 1), ("C18.R5", 2), ("C18.R6", 1), ("C18.R7", 1)):
         run.floor(r, n)
     project = run.project
     f = project.fn(PIPE + ".PipelineManager.publish")
@@ -50,6 +50,7 @@ def run(run):
     n_exec = common.check_discarded_futures(run, "C18.R3", pipe_funcs, "a failed transfer looks like success, index.wtml is sent and the image is moved to published/")
     if not common.discarded_futures_selfcheck():
         run.undecided("C18.R3", None, None, "discarded-futures rule self-check failed", kind="selfcheck", construct="<futures selfcheck>")
+    _r7_who_files_published(run, pipe_funcs)
     if _swallowing_helpers(run, f):
         return
     if _falsy_position_tests(run, pipe_funcs):
@@ -583,3 +584,67 @@ def _r6(run):
         run.violated("C18.R6", f, None, "LocalPipelineIo.put_item: " + "; ".join(problems), kind="local-store-write")
     else:
         run.holds("C18.R6", f, None, "local store: open(join(prefix, *path), 'wb') + copyfileobj(source, f)")
+
+
+
+# ---------------------------------------------------------------------------------------------------------------------
+# R7  who may file an image under `published/`: only publish(), after its transfer loop (R2 decides the "after").  Anything else
+#     that moves a directory there - a start-up "reconcile", a refresh, a clean-up - declares an image done on evidence weaker than
+#     a completed run (e.g. an index.wtml in the store that a failed last transfer left truncated), and a re-run no longer
+#     completes the job.
+
+_MOVERS = {"os.rename", "os.replace", "os.renames", "shutil.move", "shutil.copytree"}
+
+
+def _mentions_published(node, tainted):
+    for x in ast.walk(node):
+        if isinstance(x, ast.Constant) and x.value == "published":
+            return True
+        if isinstance(x, ast.Name) and x.id in tainted:
+            return True
+    return False
+
+
+def _r7_who_files_published(run, pipe_funcs):
+    project = run.project
+    sites = []
+    for g in pipe_funcs:
+        if g.module.kind != "py":
+            continue
+        tainted = set()
+        for _i in range(3):
+            for x in own_nodes(g.node):
+                if isinstance(x, ast.Assign) and _mentions_published(x.value, tainted):
+                    for t in x.targets:
+                        tainted |= {y.id for y in ast.walk(t) if isinstance(y, ast.Name)}
+        for c in own_calls(g.node):
+            if (dotted(c.func) or "") in _MOVERS and len(c.args) >= 2 and _mentions_published(c.args[1], tainted):
+                sites.append((g, c))
+    if not sites:
+        run.undecided("C18.R7", None, None, "no site that files an image under published/ was found (1 confirmed by hand)", kind="floor", construct="<published movers>",
+                      file="toasty/pipeline/__init__.py")
+        return
+    # callers of each function, within the pipeline package
+    callers = {}
+    for g in pipe_funcs:
+        for c in own_calls(g.node):
+            tgt = common.resolve_callee(project, g, c)
+            if tgt is not None:
+                callers.setdefault(tgt.qual, set()).add(g.qual)
+    pub = PIPE + ".PipelineManager.publish"
+
+    def only_from_publish(q, seen=()):
+        if q == pub:
+            return True
+        cs = callers.get(q, set())
+        if not cs or q in seen:
+            return False
+        return all(only_from_publish(c, seen + (q,)) for c in cs)
+    for g, c in sites:
+        run.note_func(g)
+        if only_from_publish(g.qual):
+            run.holds("C18.R7", g, c, "%s files an image under published/%s" % (g.short, "" if g.qual == pub else " and is reached from publish() only"))
+        else:
+            run.violated("C18.R7", g, c, "%s moves an image directory to published/ outside publish(): the image is declared done without this run having transferred its files "
+                         "(index.wtml last); after a failed or truncated last transfer a re-run no longer completes the job and refresh counts the image as done" % g.short,
+                         kind="published-outside-publish")
